@@ -11,12 +11,17 @@ Definition consistent (L : layout) (s : state) : Prop := cf s = shown L s.
 
 Definition is_setf (o : op) : bool := match o with SetF _ => true | _ => false end.
 
+(* the scripted write_<idx> of the fake driver accepts the request (takes it over or coerces it) *)
+Definition drv_ok (L : layout) (s : state) (k : Z) : bool :=
+  match drv_write L k s with Some _ => true | None => false end.
+
 (* operations after which the cache is right whatever it was before *)
 Definition establishes (L : layout) (s : state) (o : op) : bool :=
   match o with
-  | WriteI _ | SetI _ => true
+  | SetI _ => true
+  | WriteI k => drv_ok L s k
   | ReadI => f_ri L
-  | WriteF v => negb ((v <? vmin (vdict L)) || (vmax (vdict L) <? v))
+  | WriteF v => negb ((v <? vmin (vdict L)) || (vmax (vdict L) <? v)) && drv_ok L s (closest v (vdict L))
   | _ => false
   end.
 
@@ -26,12 +31,53 @@ Proof. intros L s s' H. unfold shown. now rewrite H. Qed.
 Lemma ann_idx_consistent : forall L k s, consistent L (ann_idx L k s).
 Proof. intros. unfold consistent, ann_idx, shown. simpl. reflexivity. Qed.
 
+Lemma ann_float_shown_consistent : forall L s, consistent L (ann_float (shown L s) s).
+Proof. intros. unfold consistent, ann_float, shown. simpl. reflexivity. Qed.
+
+(* wrapped write_<idx>: either the user method raised and NOTHING changed, or the index it really set (k') was announced:
+   index k', cache = table value of k', both updates in the stream *)
+Lemma write_idx_spec : forall L k s,
+  match write_idx L k s with
+  | (s1, None) => s1 = s /\ drv_ok L s k = false
+  | (s1, Some k') => drv_ok L s k = true /\ ci s1 = k' /\ consistent L s1 /\
+                     evs s1 = (1%nat, [k']) :: (0%nat, [shown L s1]) :: evs s /\ scr s1 = scr s
+  end.
+Proof.
+  intros L k s. unfold write_idx, drv_ok. destruct (drv_write L k s) as [(s0, k')|] eqn:E.
+  - split; [reflexivity|]. split; [reflexivity|]. split; [apply ann_idx_consistent|].
+    assert (Hs : evs s0 = evs s /\ scr s0 = scr s).
+    { unfold drv_write in E. destruct (f_wi L) as [|[|[|n]]]; try (injection E as <- _; auto).
+      destruct (slookup k (scr s)) as [[k2|]|]; try discriminate; injection E as <- _; auto. }
+    destruct Hs as (He & Hc). unfold ann_idx, shown. simpl. now rewrite He, Hc.
+  - split; reflexivity.
+Qed.
+
+(* a driver that takes the request over (no write_<idx>, the plain kinds, or no script entry for k) sets exactly k *)
+Definition takes_over (L : layout) (s : state) (k : Z) : bool :=
+  match f_wi L with
+  | 0%nat | 1%nat | 2%nat => true
+  | _ => match slookup k (scr s) with None => true | Some _ => false end
+  end.
+
+Lemma write_idx_takes_over : forall L k s, takes_over L s k = true ->
+  exists s1, write_idx L k s = (s1, Some k) /\ ci s1 = k.
+Proof.
+  intros L k s H. unfold write_idx, drv_write. unfold takes_over in H.
+  destruct (f_wi L) as [|[|[|n]]]; try (eexists; split; reflexivity).
+  destruct (slookup k (scr s)); [discriminate|]. eexists; split; reflexivity.
+Qed.
+
 Lemma step_establishes : forall L s o, establishes L s o = true -> consistent L (fst (step L s o)).
 Proof.
   intros L s o H. destruct o; simpl in *; try discriminate.
-  - destruct ((v <? vmin (vdict L)) || (vmax (vdict L) <? v)); try discriminate. simpl.
-    unfold consistent, ann_float, shown. simpl. reflexivity.
-  - unfold write_idx. apply ann_idx_consistent.
+  - apply andb_prop in H. destruct H as (H1 & H2). apply negb_true_iff in H1. rewrite H1.
+    pose proof (write_idx_spec L (closest v (vdict L)) s) as W.
+    destruct (write_idx L (closest v (vdict L)) s) as (s1, [k'|]); simpl.
+    + apply ann_float_shown_consistent.
+    + destruct W as (_ & W). congruence.
+  - pose proof (write_idx_spec L k s) as W. destruct (write_idx L k s) as (s1, [k'|]); simpl.
+    + tauto.
+    + destruct W as (_ & W). congruence.
   - rewrite H. simpl. apply ann_idx_consistent.
   - apply ann_idx_consistent.
 Qed.
@@ -40,8 +86,13 @@ Lemma step_preserves : forall L s o, is_setf o = false -> consistent L s -> cons
 Proof.
   intros L s o Hn HC. destruct o; simpl in *; try discriminate; auto.
   - destruct ((v <? vmin (vdict L)) || (vmax (vdict L) <? v)); simpl; auto.
-    unfold consistent, ann_float, shown. simpl. reflexivity.
-  - unfold write_idx. apply ann_idx_consistent.
+    pose proof (write_idx_spec L (closest v (vdict L)) s) as W.
+    destruct (write_idx L (closest v (vdict L)) s) as (s1, [k'|]); simpl.
+    + apply ann_float_shown_consistent.
+    + destruct W as (-> & _). exact HC.
+  - pose proof (write_idx_spec L k s) as W. destruct (write_idx L k s) as (s1, [k'|]); simpl.
+    + tauto.
+    + destruct W as (-> & _). exact HC.
   - destruct (f_ri L); simpl; auto. apply ann_idx_consistent.
   - apply ann_idx_consistent.
 Qed.
@@ -103,15 +154,64 @@ Proof.
     intros j y [Hy | Hy]; [injection Hy as _ <-; lia | now apply Hall in Hy].
 Qed.
 
-Lemma write_selects_closest : forall L s v, vdict L <> [] ->
+(* a client (or driver) write of the float parameter, from ANY state and with ANY write_<idx> script:
+   - outside the table range: refused (RangeError), nothing changed;
+   - the index REQUESTED from write_<idx> is closest v: its table value has minimal distance to v;
+   - write_<idx> raised: HardwareError, nothing changed at all (so value and index still belong together if they did);
+   - otherwise: the index is the one write_<idx> really set (k', equal to the requested one when the driver takes the
+     request over), the cached value, the reply and the last update of the float parameter are the table value of THAT
+     index, and the update stream got float, index, float - all three for k' *)
+Lemma write_float_spec : forall L s v,
+  let d := vdict L in
   let '(s', r) := step L s (WriteF v) in
-  if (v <? vmin (vdict L)) || (vmax (vdict L) <? v)
+  if (v <? vmin d) || (vmax d <? v)
   then s' = s /\ r = RErr 1
-  else r = ROk [shown L s'] /\ cf s' = shown L s' /\
-       exists x, In (ci s', x) (vdict L) /\ forall j y, In (j, y) (vdict L) -> Z.abs (x - v) <= Z.abs (y - v).
+  else if drv_ok L s (closest v d)
+       then consistent L s' /\ r = ROk [shown L s'] /\
+            evs s' = (0%nat, [shown L s']) :: (1%nat, [ci s']) :: (0%nat, [shown L s']) :: evs s /\
+            (takes_over L s (closest v d) = true -> ci s' = closest v d)
+       else s' = s /\ r = RErr 3.
 Proof.
-  intros L s v Hne. simpl. destruct ((v <? vmin (vdict L)) || (vmax (vdict L) <? v)); auto.
-  split; [reflexivity|]. split; [reflexivity|]. simpl. now apply closest_spec.
+  intros L s v. simpl. destruct ((v <? vmin (vdict L)) || (vmax (vdict L) <? v)); [split; reflexivity|].
+  pose proof (write_idx_spec L (closest v (vdict L)) s) as W.
+  pose proof (write_idx_takes_over L (closest v (vdict L)) s) as T.
+  destruct (write_idx L (closest v (vdict L)) s) as (s1, [k'|]).
+  - destruct W as (W0 & W1 & W2 & W3 & W4). rewrite W0.
+    assert (Hsh : shown L (ann_float (shown L s1) s1) = shown L s1) by (apply shown_ci; reflexivity).
+    split; [apply ann_float_shown_consistent|]. split; [now rewrite Hsh|]. split.
+    + rewrite Hsh. unfold ann_float at 1 2. simpl. rewrite W3, W1. reflexivity.
+    + intros Ht. destruct (T Ht) as (s2 & E & _). injection E as _ <-. simpl. exact W1.
+  - destruct W as (-> & W). rewrite W. split; reflexivity.
+Qed.
+
+Lemma write_selects_closest : forall L v, vdict L <> [] ->
+  exists x, In (closest v (vdict L), x) (vdict L) /\ forall j y, In (j, y) (vdict L) -> Z.abs (x - v) <= Z.abs (y - v).
+Proof. intros L v Hne. now apply closest_spec. Qed.
+
+(* whatever the history: after a write of the float parameter the value belongs to the index, provided it did before a
+   FAILED write (a successful one repairs any state) *)
+Lemma write_float_consistent : forall L s v,
+  let '(s', r) := step L s (WriteF v) in
+  match r with
+  | ROk x => consistent L s' /\ x = [shown L s']
+  | RErr c => s' = s /\ (c = 1 \/ c = 3)%nat
+  end.
+Proof.
+  intros L s v. pose proof (write_float_spec L s v) as H. cbv zeta in H.
+  destruct (step L s (WriteF v)) as (s', r).
+  destruct ((v <? vmin (vdict L)) || (vmax (vdict L) <? v)).
+  - destruct H as (-> & ->). auto.
+  - destruct (drv_ok L s (closest v (vdict L))).
+    + destruct H as (H1 & -> & _). auto.
+    + destruct H as (-> & ->). auto.
+Qed.
+
+Lemma write_float_after_history : forall L pre o post v,
+  establishes L (run L pre) o = true -> forallb (fun o => negb (is_setf o)) post = true ->
+  consistent L (run L (pre ++ o :: post ++ [WriteF v])).
+Proof.
+  intros L pre o post v He Hn. apply value_after_index_update; auto.
+  rewrite forallb_app, Hn. reflexivity.
 Qed.
 
 (* every table value lies inside [vmin, vmax]: exactly the table range is writable *)
